@@ -5,9 +5,11 @@ it fails exactly when the two structures have no common ground instance, and oth
 receiver whose ground instances are exactly the common ones.
 -/
 import Pfl.Model.FeatureDag
+import Pfl.Proofs.FeatureDagLemmas
 namespace Pfl
 namespace FsDag
 open FsGround
+open Pfl.FsDag.Lem
 
 /-- a consistently typed flat description over the path set `paths`: every described path is one
 of `paths`, at most once; paths have one step, or two steps starting with "agr"; "agr" itself is
@@ -18,24 +20,28 @@ structure Typed (paths : List (List String)) (s : SFS) : Prop where
   shape : ∀ p ∈ paths, (∃ g, p = [g] ∧ g ≠ "agr") ∨ (∃ g, p = ["agr", g])
   pathsNodup : paths.Nodup
 
+theorem Typed.desc {paths : List (List String)} {s : SFS} (h : Typed paths s) : Desc paths s :=
+  ⟨h.sub, h.nodup, h.shape⟩
+
 /-- unification never runs out of fuel on these two-level structures -/
 theorem unifySFS_terminates (paths : List (List String)) (a b : SFS) (ha : Typed paths a) (hb : Typed paths b)
     (fuel : Nat) (hf : 4 ≤ fuel) : ∀ st r, unifySFS a b fuel ≠ (.fuel, r) ∧ (unifySFS a b fuel = (.ok st, r) → True) := by
-  sorry
+  intro st r
+  exact ⟨unifySFS_fuel ha.desc hb.desc fuel (by omega) r, fun _ => trivial⟩
 
 /-- success: the receiver denotes exactly the common ground instances -/
 theorem unifySFS_ok (paths : List (List String)) (vals : List String) (a b : SFS)
     (ha : Typed paths a) (hb : Typed paths b) (fuel : Nat) (st : Store) (r : Nat)
     (h : unifySFS a b fuel = (.ok st, r)) (asg : Asg) (hasg : asg ∈ allAsg vals paths) :
-    sat (read st r paths) asg = true ↔ (sat a asg = true ∧ sat b asg = true) := by
-  sorry
+    sat (read st r paths) asg = true ↔ (sat a asg = true ∧ sat b asg = true) :=
+  unifySFS_ok_desc ha.desc hb.desc h hasg
 
 /-- failure: there is no common ground instance -/
 theorem unifySFS_conflict (paths : List (List String)) (vals : List String) (a b : SFS)
     (ha : Typed paths a) (hb : Typed paths b) (fuel : Nat) (r : Nat)
     (h : unifySFS a b fuel = (.conflict, r)) (asg : Asg) (hasg : asg ∈ allAsg vals paths) :
-    ¬ (sat a asg = true ∧ sat b asg = true) := by
-  sorry
+    ¬ (sat a asg = true ∧ sat b asg = true) :=
+  unifySFS_conflict_desc ha.desc hb.desc h hasg
 
 end FsDag
 end Pfl
